@@ -964,6 +964,76 @@ def task_setup(ctx, repo, m):
         obs.append(Obligation('setup.get_inlet_outlet.' + tag, [],
                               z3.BoolVal(bool(ok)), W, extra=dict(why=why)))
     ctx.function(m, fn, 'InletOutletManager.get_inlet_outlet')
+    # several zones of one kind: EVERY inlet and EVERY outlet gets its own
+    # update object, in the order given
+    del built[:]
+    ii2, oi2 = mk_info('inlet2'), mk_info('outlet2')
+    arrays2 = dict(arrays, inlet2=('array', 'inlet2'),
+                   outlet2=('array', 'outlet2'))
+    obj = SymObject('InletOutletManager', dict(
+        inletinfo=[ii, ii2], outletinfo=[oi, oi2], fluids=['fluid'],
+        inlet_pairs={}, outlet_pairs={}, kernel='KERNEL',
+        dim=z3.Int('dim'), active_stages=['STAGES']), 'self')
+    obj.module = MOD
+    ex = Executor(repo, m, qualname='InletOutletManager.get_inlet_outlet',
+                  merge=False)
+    ex.contracts['InletOutletManager._update_inlet_outlet_info'] = \
+        CalleeContract(lambda e, s_, a, k, n: None)
+    try:
+        outs = ex.exec_function(fn, dict(self=obj, particle_array=arrays2))
+        want = [('obj', k_) for k_ in ('inlet', 'inlet2', 'outlet',
+                                       'outlet2')]
+        ok = len(outs) == 1 and outs[0].value == want
+        obs.append(Obligation(
+            'setup.get_inlet_outlet.every_zone_gets_an_update_object', [],
+            z3.BoolVal(bool(ok)), W, extra=dict(
+                why='two inlets and two outlets: returned %r' % (
+                    outs[0].value if outs else None,))))
+    except VCError as e:
+        ctx.outside('setup.get_inlet_outlet.two_zones', str(e))
+    # the zone records: a zone declared without an update class gets the
+    # base class OF ITS KIND (an outlet driven by InletBase would emit and
+    # recycle instead of handing over and deleting), an explicit class is
+    # kept
+    for icls, base in (('InletInfo', 'InletBase'), ('OutletInfo',
+                                                    'OutletBase')):
+        for given in (None, ('class', 'Custom')):
+            fn_i = m.methods(icls)['__init__']
+            o_ = SymObject(icls, {}, 'self')
+            o_.module = MOD
+            ex = Executor(repo, m, qualname=icls + '.__init__', merge=False)
+            ex.spec_env['InletBase'] = ('class', 'InletBase')
+            ex.spec_env['OutletBase'] = ('class', 'OutletBase')
+
+            class _Super(object):
+                # super(OutletInfo, self): the methods of InletInfo on self
+                def __init__(self, me, ex_):
+                    self.me, self.ex_ = me, ex_
+
+                def vc_getattr(self, name, ex_, st, node):
+                    f = m.methods('InletInfo')[name]
+                    return Native(lambda e2, s2, a2, k2, n2: e2.inline_call(
+                        e2.module, f, [self.me] + list(a2), k2, s2, n2))
+            ex.spec_env['super'] = Native(
+                lambda e, s_, a, k, n, ex=ex: _Super(a[1], ex))
+            try:
+                outs = ex.exec_function(fn_i, dict(
+                    self=o_, pa_name='zone', normal=('n',),
+                    refpoint=('r',), update_cls=given))
+                got = outs[0].state.env['self'].attrs.get('update_cls') \
+                    if len(outs) == 1 else 'no single outcome'
+                want = given if given is not None else ('class', base)
+                obs.append(Obligation(
+                    'setup.%s.update_class.%s' % (
+                        icls, 'default' if given is None else 'explicit'),
+                    [], z3.BoolVal(got == want), W, extra=dict(
+                        why='%s(update_cls=%r).update_cls is %r' % (
+                            icls, given, got))))
+            except VCError as e:
+                ctx.outside('setup.%s.__init__.%s' % (
+                    icls, 'default' if given is None else 'explicit'),
+                    str(e))
+        ctx.function(m, m.methods(icls)['__init__'], icls + '.__init__')
     # constructors and initialize()
     for cls, names in (('InletBase', ('inlet_pa', 'dest_pa', 'inletinfo')),
                        ('OutletBase', ('outlet_pa', 'source_pa',
@@ -1020,30 +1090,144 @@ def task_setup(ctx, repo, m):
         obs.append(Obligation('setup.%s.initialize_reads_the_zone_record'
                               % cls, [], z3.BoolVal(bool(ok)), W))
     ctx.prove('setup.update_objects_are_wired_to_their_arrays', obs)
+    # several fluid arrays (the manager takes a list and builds its equations
+    # for all of them): particles of EVERY fluid array cross the zones, so
+    # every (zone, fluid) pair needs an update object
+    del built[:]
+    obj = SymObject('InletOutletManager', dict(
+        inletinfo=[ii], outletinfo=[oi], fluids=['f1', 'f2'],
+        inlet_pairs={}, outlet_pairs={}, kernel='KERNEL',
+        dim=z3.Int('dim'), active_stages=['STAGES']), 'self')
+    obj.module = MOD
+    arrays3 = dict(arrays, f1=('array', 'f1'), f2=('array', 'f2'))
+    ex = Executor(repo, m, qualname='InletOutletManager.get_inlet_outlet',
+                  merge=False)
+    ex.contracts['InletOutletManager._update_inlet_outlet_info'] = \
+        CalleeContract(lambda e, s_, a, k, n: None)
+    fn = m.methods('InletOutletManager')['get_inlet_outlet']
+    try:
+        outs = ex.exec_function(fn, dict(self=obj, particle_array=arrays3))
+        pairs = sorted((k_, a_[1][1]) for (k_, a_, kw_) in built)
+        ok = len(outs) == 1 and len(outs[0].value) == 4 and pairs == [
+            ('inlet', 'f1'), ('inlet', 'f2'), ('outlet', 'f1'),
+            ('outlet', 'f2')]
+        ctx.prove('setup.every_fluid_array_is_wired_to_every_zone', [
+            Obligation('setup.two_fluids', [], z3.BoolVal(bool(ok)), W,
+                       extra=dict(why='fluids [f1, f2]: %d objects returned '
+                                  'for the pairs built %r' % (
+                                      len(outs[0].value) if outs else -1,
+                                      pairs)))], replay=replay_two_fluids)
+    except VCError as e:
+        ctx.outside('setup.two_fluids', str(e))
+
+
+REPLAY_TWO_FLUIDS = r'''
+import json, sys, importlib.util
+import numpy as np
+d = json.load(sys.stdin)
+spec = importlib.util.spec_from_file_location('pysph.sph.bc.iom_ut', d['root'] + '/pysph/sph/bc/inlet_outlet_manager.py')
+m = importlib.util.module_from_spec(spec); m.__package__ = 'pysph.sph.bc'; spec.loader.exec_module(m)
+from pysph.base.utils import get_particle_array
+from pysph.base.kernels import QuinticSpline
+dx = 0.1
+def mk(name, x):
+    pa = get_particle_array(name=name, x=x, y=np.zeros_like(x), m=np.ones_like(x), h=1.5 * dx * np.ones_like(x), rho=np.ones_like(x), u=np.ones_like(x))
+    for p in ('ioid', 'disp'): pa.add_property(p)
+    return pa
+f1 = mk('f1', np.arange(0.05, 1.0, 2 * dx)); f2 = mk('f2', np.arange(0.15, 1.0, 2 * dx))
+outlet = mk('outlet', np.arange(1.05, 1.5, dx))
+arrays = {'f1': f1, 'f2': f2, 'outlet': outlet}
+props = ['x', 'y', 'z', 'u', 'v', 'w', 'm', 'h', 'rho', 'p', 'ioid']
+oinfo = m.OutletInfo('outlet', normal=[1.0, 0.0, 0.0], refpoint=[1.0, 0.0, 0.0], update_cls=m.OutletBase, props_to_copy=props)
+iom = m.InletOutletManager(['f1', 'f2'], inletinfo=[], outletinfo=[oinfo])
+iom.active_stages = [2]
+iom.setup_iom(dim=1, kernel=QuinticSpline(dim=1))
+iom.update_dx(dx)
+io = iom.get_inlet_outlet(arrays)
+for step in range(1, 21):
+    for pa in arrays.values(): pa.x += 0.03 * pa.u
+    for o in io: o.update(step * 0.03, 0.03, 2)
+beyond = {n: [round(float(v), 6) for v in arrays[n].x if v > 1.0 + 1e-6] for n in ('f1', 'f2')}
+bad = None
+if beyond['f1'] or beyond['f2']:
+    bad = dict(case='fluids f1 (x = 0.05, 0.25, ...) and f2 (x = 0.15, 0.35, ...), outlet plane at x = 1, 20 updates of 0.03', fluid_particles_still_in_the_fluid_beyond_the_outlet_plane=beyond, update_objects=[(type(o).__name__, o.source_pa.name) for o in io])
+print(json.dumps(dict(bad=bad)))
+'''
+
+
+def replay_two_fluids(model, ob):
+    from pyvc.repo import REPO_ROOT
+    try:
+        r = native.run_venv(REPLAY_TWO_FLUIDS, dict(root=REPO_ROOT),
+                            timeout=900, cwd='/tmp')
+    except Exception as e:
+        return dict(reproduced=False, note=str(e)[-300:])
+    if r['bad']:
+        return dict(reproduced=True, how='real InletOutletManager and '
+                    'OutletBase on compiled particle arrays', **r['bad'])
+    return dict(reproduced=False)
 
 
 # ---------------------------------------------------------------- zone length
 def task_length(ctx, repo, m):
     """InletOutletManager._update_inlet_outlet_info: the zone length of the
-    matching inlet/outlet is |n . (extent + dx)| with extent = max - min of
-    the particle coordinates -- one particle layer has length dx, not 0 --
-    and no other zone's record is touched."""
+    matching inlet/outlet is the extent of the zone ALONG ITS NORMAL plus one
+    spacing, max_p(p . n) - min_p(p . n) + dx -- taken from the property
+    ("any normal direction"), not from the code: one particle layer has
+    length dx, not 0, and an oblique zone has the length its layers span --
+    and no other zone's record is touched.  (Until 'fix: zone length along
+    the normal' the code used the axis-aligned bounding box, |n . (extent +
+    dx)|, and this contract had copied that formula from it.)"""
     cls = 'InletOutletManager'
     fn = m.methods(cls)['_update_inlet_outlet_info']
     W = m.path
     Mx = {a: z3.Real('max_' + a) for a in 'xyz'}
     mn_ = {a: z3.Real('min_' + a) for a in 'xyz'}
+    Pmax, Pmin = z3.Real('max_of_p_dot_n'), z3.Real('min_of_p_dot_n')
     dx = z3.Real('dx')
     nrm = [z3.Real('n%d' % i) for i in range(3)]
+    fresh = [0]
 
-    class Col(object):
-        def __init__(self, a):
-            self.a = a
+    class Lin(object):
+        """a coordinate column or a linear combination of the columns"""
+
+        def __init__(self, co):
+            self.co = co
 
         def vc_clone(self, memo, _c=None):
             return self
-    pa = SymObject(None, dict(name='inlet', x=Col('x'), y=Col('y'),
-                              z=Col('z')), 'pa')
+
+        def vc_binop(self, op, other, swapped, ex, st, node):
+            if op == 'Mult' and not isinstance(other, Lin):
+                return Lin({a: S.mul(c, other) for a, c in self.co.items()})
+            if op in ('Add', 'Sub') and isinstance(other, Lin):
+                o2 = other.co if op == 'Add' else {
+                    a: S.sub(0, c) for a, c in other.co.items()}
+                if swapped and op == 'Sub':
+                    raise VCError('swapped column subtraction')
+                co = dict(self.co)
+                for a, c in o2.items():
+                    co[a] = S.add(co[a], c) if a in co else c
+                return Lin(co)
+            raise VCError('column %s' % op)
+
+    def extreme(which):
+        def f(e, s_, a, k, n):
+            L = a[0]
+            if not isinstance(L, Lin):
+                raise VCError('max/min of %r' % (L,))
+            if len(L.co) == 1 and S.same(list(L.co.values())[0], 1):
+                ax = list(L.co)[0]
+                return (Mx if which == 'max' else mn_)[ax]
+            if set(L.co) == set('xyz') and all(
+                    z3.is_true(z3.simplify(S.to_real(L.co[ax]) == nrm[i]))
+                    for i, ax in enumerate('xyz')):
+                return Pmax if which == 'max' else Pmin
+            fresh[0] += 1
+            return z3.Real('%s_of_other_combination_%d' % (which, fresh[0]))
+        return f
+    pa = SymObject(None, dict(name='inlet', x=Lin({'x': 1}), y=Lin({'y': 1}),
+                              z=Lin({'z': 1})), 'pa')
     info = SymObject(None, dict(dx=dx, pa_name='inlet', normal=list(nrm),
                                 length=z3.Real('old_len')), 'info')
     other = SymObject(None, dict(dx=dx, pa_name='outlet', normal=list(nrm),
@@ -1051,10 +1235,10 @@ def task_length(ctx, repo, m):
     obj = SymObject(cls, dict(inletinfo=[info], outletinfo=[other]), 'self')
     obj.module = m.name
     ex = Executor(repo, m, qualname=cls + '._update_inlet_outlet_info',
-                  merge=True, externals={
-                      'max': lambda e, s_, a, k, n: Mx[a[0].a],
-                      'min': lambda e, s_, a, k, n: mn_[a[0].a]})
-    pre = [Mx[a] >= mn_[a] for a in 'xyz'] + [dx > 0]
+                  merge=True, externals={'max': extreme('max'),
+                                         'min': extreme('min')})
+    pre = [Mx[a] >= mn_[a] for a in 'xyz'] + [dx > 0, Pmax >= Pmin,
+                                               sum(c * c for c in nrm) == 1]
     try:
         outs = ex.exec_function(fn, dict(self=obj, pa=pa), State(pc=pre))
     except VCError as e:
@@ -1065,12 +1249,9 @@ def task_length(ctx, repo, m):
     for i_, o in enumerate(outs):
         me = o.state.env['self']
         got = me.attrs['inletinfo'][0].attrs['length']
-        want = sum((Mx[a] - mn_[a] + dx) * nrm[k] for k, a in
-                   enumerate('xyz'))
-        want = z3.If(want >= 0, want, -want)
         oth = me.attrs['outletinfo'][0].attrs['length']
         obs.append(Obligation('length.%d' % i_, o.pc, z3.And(
-            S.to_real(got) == want,
+            S.to_real(got) == Pmax - Pmin + dx,
             z3.BoolVal(S.same(oth, other.attrs['length']))), W,
             extra=dict(backends=['z3'])))
 
@@ -1092,6 +1273,16 @@ man._update_inlet_outlet_info(PA())
 bad = None
 if abs(info.length - 0.1) > 1e-12:
     bad = dict(zone='one particle layer at x = 0.05, dx = 0.1, normal -x', length=float(info.length), documented=0.1)
+if bad is None:
+    s2 = np.sqrt(0.5); n = np.array([-s2, s2]); t = np.array([s2, s2])
+    D, S_ = np.meshgrid((np.arange(4) + 0.5) * 0.1, (np.arange(4) - 1.5) * 0.1, indexing='ij')
+    class PB:
+        name = 'inlet'
+        x = (D * n[0] + S_ * t[0]).ravel(); y = (D * n[1] + S_ * t[1]).ravel(); z = np.zeros(16)
+    info.normal = [n[0], n[1], 0.0]
+    man._update_inlet_outlet_info(PB())
+    if abs(info.length - 0.4) > 1e-9:
+        bad = dict(zone='4 layers (spacing 0.1) x 4 wide, normal (-1, 1)/sqrt(2)', length=float(info.length), extent_along_normal_plus_dx=0.4)
 print(json.dumps(dict(bad=bad)))
 """
         from pyvc.repo import REPO_ROOT
